@@ -5,9 +5,9 @@
     (base, nft, mig, ngt before the NFT part): under the cover invariant tokens-per-ticket x
     remaining winners <= balance a winner's claim cannot fail, pays exactly tokens-per-ticket x
     winning and keeps the invariant ([C02_claim_covered]); the owner's withdrawal leaves exactly what
-    the remaining winners are owed ([C02_owner_leaves_cover]).  The cover invariant for the locked and
-    vested variants and its establishment at deposit time are monitored by the oracle and the
-    correspondence (DESIGN.md). *)
+    the remaining winners are owed ([C02_owner_leaves_cover]); the same for the locked variants
+    ([C02_claim_covered_locked]).  The cover invariant for the vested variants and its establishment
+    at deposit time are monitored by the oracle and the correspondence (DESIGN.md). *)
 From LP Require Import Proofs.Tactics Proofs.LedgerBase Proofs.Gates Proofs.Frames Proofs.Settle Proofs.Confirm Proofs.Reserve Proofs.Ledger
   Proofs.ClaimLedger Proofs.Lock Proofs.Vesting Proofs.Examples.
 Open Scope N_scope.
@@ -77,6 +77,19 @@ Theorem C02_claim_covered : forall e w A,
     bal w' sc_addr (lp_token (st w)) 0 + tpt (st w) * wins = bal w sc_addr (lp_token (st w)) 0.
 Proof. exact Cover_claim. Qed.
 
+(** the locked variants: the entitlement leaves in two transfers (lock contract, winner) *)
+Theorem C02_claim_covered_locked : forall e w A,
+  ClaimInv w A -> CoverInv w -> pay_token (st w) <> lp_token (st w) -> caller e <> sc_addr ->
+  lock_sc (st w) <> sc_addr -> lock_pct (st w) <= MAX_PERCENTAGE -> 0 < tpt (st w) ->
+  get_launch_stage e (st w) = Claim -> claimed (st w) (caller e) = false ->
+  range (st w) (caller e) <> None ->
+  exists w',
+    claim_launchpad_tokens send_locked_launchpad_tokens e w = Ok w' /\ ClaimInv w' A /\ CoverInv w' /\
+    let wins := winning_of (st w) (caller e) in
+    nr_winning (st w') = nr_winning (st w) - wins /\
+    bal w' sc_addr (lp_token (st w)) 0 + tpt (st w) * wins = bal w sc_addr (lp_token (st w)) 0.
+Proof. exact Cover_claim_locked. Qed.
+
 (** the owner's withdrawal takes the surplus only: afterwards the balance is exactly what the
     winners who have not claimed yet are owed (zero once all have) *)
 Theorem C02_owner_leaves_cover : forall e w w' A,
@@ -104,5 +117,6 @@ Print Assumptions C02_owner_surplus_common.
 Print Assumptions C02_owner_surplus_vested.
 Print Assumptions C02_tpt_frozen.
 Print Assumptions C02_claim_covered.
+Print Assumptions C02_claim_covered_locked.
 Print Assumptions C02_owner_leaves_cover.
 Print Assumptions C02_nonvacuous.
